@@ -45,7 +45,9 @@ def run(tier, seed, ev):
         # to a missing blob (a dangling key makes every later get / get_range / get_reader of it fail)
         plans = [(("put", "get"), 1, 2), (("remove", "get"), 1, 1), (("put", "remove"), 1, 2)]
         if tier == "thorough":
-            plans += [(("put", "get"), 2, 2), (("get", "get"), 1, 1)]
+            # writer || checkpoint: a write that returned Ok stays visible (no lost update through a checkpoint that works on a
+            # copy of the state), in memory and in what a restart would recover
+            plans += [(("put", "get"), 2, 2), (("get", "get"), 1, 1), (("put", "checkpoint"), 1, 2), (("remove", "checkpoint"), 1, 2)]
         rc = tcommon.best(rc, sprop.run_s(PROP, tier, seed, ev, ex, plans))
         tcommon.fill(ev, ex, mir_s, [2], [
             "decided: per-call discipline (single lookup under the read lock; all map mutations under the write lock, hence a total "
